@@ -67,6 +67,9 @@ type JApiCore struct {
 	// to accumulate directive data pieces from scanner.
 	currentDirective *directive.Directive
 
+	// firstDirective is the very first directive of the project.
+	firstDirective *directive.Directive
+
 	// rawPathVariables contains properties of the Path directives.
 	rawPathVariables []rawPathVariable
 
